@@ -164,13 +164,13 @@ def flatten(nodes, out=None):
     return out
 
 
-def asymmetric_keys(t1, t2, rep):
+def asymmetric_keys(t1, t2, rep, extra=None):
     """distance-cache keys for which the cache-less run computes the rough distance in BOTH
     orientations of the hash pair with different values (the key is symmetric, the distance is not)"""
     from deepdiff import DeepDiff
     with MemoRecording() as rec:
         try:
-            DeepDiff(copy.deepcopy(t1), copy.deepcopy(t2), ignore_order=True, report_repetition=rep)
+            DeepDiff(copy.deepcopy(t1), copy.deepcopy(t2), ignore_order=True, report_repetition=rep, **(extra or {}))
         except Exception:  # noqa
             return []
     by = {}
@@ -186,7 +186,7 @@ def k17_match(case):
     if case.get("kind") != "settings" or not case.get("ignore_order") or not case.get("cache_size"):
         return False
     t1, t2 = c05.from_repr(case["t1"]), c05.from_repr(case["t2"])
-    return bool(asymmetric_keys(t1, t2, case.get("report_repetition", False)))
+    return bool(asymmetric_keys(t1, t2, case.get("report_repetition", False), case.get("extra_knobs")))
 
 
 MATCHERS = {"C17-K17-symmetric-distance-key": k17_match}
@@ -317,10 +317,21 @@ def _grid_task(args):
         hits += (stats or {}).get("DISTANCE CACHE HIT COUNT", 0)
         evictions += ev["evictions"]
         lookups += ev["sets"]
-        out.append(((cs, tune, purge), got == base and got_text == base_text, isinstance(got, str)))
-    # repeated runs
+        out.append(((cs, tune, purge), got == base and got_text == base_text, isinstance(got, str), {}))
+    # repeated runs; nothing may leak from one run into the next (a run with other pairing knobs in between)
     again, _ = result_obs(t1, t2, **base_kw)
     rep_ok = again == base
+    if io:
+        extra = dict(cutoff_distance_for_pairs=1, cutoff_intersection_for_pairs=1)
+        wide = dict(base_kw, **extra)
+        fresh, _ = result_obs(t1, t2, cache_size=5000, **base_kw)
+        w_nocache, _ = result_obs(t1, t2, **wide)
+        w_cache, _ = result_obs(t1, t2, cache_size=5000, **wide)
+        after, _ = result_obs(t1, t2, cache_size=5000, **base_kw)
+        w_again, _ = result_obs(t1, t2, cache_size=5000, **wide)
+        if after != fresh or w_again != w_cache:
+            rep_ok = False
+        out.append(((5000, 0, 1), w_cache == w_nocache, isinstance(w_cache, str), extra))
     # reused hashes table: from a run on the same objects, and from a run on unrelated objects
     from deepdiff import DeepDiff
     hashes_ok = True
@@ -358,10 +369,10 @@ def oracle_grid(ctx, inputs, pool, full):
     tot_hits = tot_ev = 0
     for t1r, t2r, io, rep, out, rep_ok, hashes_ok, detail, hits, evictions, lookups, n0 in res:
         base_case = {"t1": t1r, "t2": t2r, "ignore_order": io, "report_repetition": rep}
-        for (cs, tune, purge), same, exc in out:
-            ctx.seen((t1r, t2r, io, rep, cs, tune, purge), nontrivial=lookups > 0 or not io)
+        for (cs, tune, purge), same, exc, extra in out:
+            ctx.seen((t1r, t2r, io, rep, cs, tune, purge, sorted(extra.items())), nontrivial=lookups > 0 or not io)
             if not same:
-                ctx.fail(dict(base_case, kind="settings", cache_size=cs, cache_tuning_sample_size=tune, cache_purge_level=purge),
+                ctx.fail(dict(base_case, kind="settings", cache_size=cs, cache_tuning_sample_size=tune, cache_purge_level=purge, extra_knobs=extra),
                          "the result with cache_size=%r cache_tuning_sample_size=%r cache_purge_level=%r differs from the result without cache%s"
                          % (cs, tune, purge, " (raised)" if exc else ""))
         ctx.seen((t1r, t2r, io, rep, "repeat"))
@@ -623,9 +634,9 @@ def replay(ctx, data):
     ctx.evaluations += 1
     print("replay: %s -> settings_equal=%r repeat_equal=%r hashes_equal=%r (%s) hits=%d evictions=%d" % (
         case["kind"], [x[1] for x in out], rep_ok, hashes_ok, detail, hits, evictions))
-    for (cs, tune, purge), same, exc in out:
+    for (cs, tune, purge), same, exc, extra in out:
         if not same:
-            ctx.fail(case, "the result with cache_size=%r cache_tuning_sample_size=%r cache_purge_level=%r differs from the result without cache" % (cs, tune, purge))
+            ctx.fail(dict(case, extra_knobs=extra), "the result with cache_size=%r cache_tuning_sample_size=%r cache_purge_level=%r differs from the result without cache" % (cs, tune, purge))
     if not rep_ok:
         ctx.fail(case, "two identical runs gave different results")
     if not hashes_ok:
